@@ -2,12 +2,21 @@ package verifc04
 
 import (
 	"os"
+	"strings"
 
 	"github.com/containerd/stargz-snapshotter/internal/verifutil"
 )
 
 // Plan assembles the inputs of one run.  blobOnly: only inputs of kind blob (the db binary).
 func Plan(g *Gen, blobOnly bool) []Input {
+	// replay aid: VERIF_C04_OPS="op;op;..." runs exactly these arithmetic ops
+	if ops := os.Getenv("VERIF_C04_OPS"); ops != "" {
+		var ins []Input
+		for _, op := range strings.Split(ops, ";") {
+			ins = append(ins, Input{Class: "arith:replay", Kind: "arith", Op: strings.TrimSpace(op)})
+		}
+		return ins
+	}
 	n := verifutil.EnvInt("VERIF_N", 300)
 	fixed, fixedLate := g.Fixed()
 	sus, susLate := Suspects(g)
